@@ -33,6 +33,7 @@ def check(run):
     unknown(run, p)
     entry(run, p)
     preset(run, p)
+    sameprep(run, p)
     from .common import nocache_rule
     nocache_rule(run, 'C09-NOCACHE', p, ['tdda.constraints.base'],
                  'a .tdda file is read each time it is loaded: no memoising decorator, no class-level container and no module-level '
@@ -287,9 +288,10 @@ def entry(run, p):
                 ok = len(x.args) == 1 and isinstance(x.args[0], ast.Call) and getattr(x.args[0].func, 'id', '') == 'native_definite'
                 run.ob('C09-ENTRY', '%s::%s' % (f.rel, f.short), ok, '%s loads through %s' % (f.short, norm(x)[:70]), fn=f, node=x)
     ld = p.method('DatasetConstraints', 'load')
-    ok = 'json.loads' in ast.unparse(ld.node)
+    ok = any('json.loads' in ast.unparse(p.funcs[qn].node) or 'json.load(' in ast.unparse(p.funcs[qn].node)
+             for (qn, ctx) in p.reach([ld]) if p.funcs[qn].rel.startswith('tdda/constraints/'))
     run.ob('C09-ENTRY', '%s::%s::json' % (ld.rel, ld.short), ok, 'load() parses the file with json.loads', fn=ld, nontrivial=False)
-    run.floor('C09-ENTRY', n, 3)
+    run.floor('C09-ENTRY', n, 2)
 
 
 def preset(run, p):
@@ -354,3 +356,43 @@ def strip(run, p):
     rs = [x for x in ast.walk(s.node) if isinstance(x, ast.Call) and isinstance(x.func, ast.Attribute) and x.func.attr == 'rstrip']
     run.ob('C09-STRIP', '%s::%s::rstrip' % (s.rel, s.short), bool(rs), 'each line is right-stripped', fn=s, nontrivial=False)
     run.floor('C09-STRIP', 3, 3)
+
+
+def sameprep(run, p, rid='C09-SAMEPREP'):
+    from .common import must_pass
+    run.rule(rid, 'constraints given as a path and as a dictionary are prepared alike: in verify_df and detect_df every path on which '
+                  'repair is requested passes the call to repair_field_types (directly, or inside a helper all of whose paths do), '
+                  'whichever form the constraints came in')
+    n = 0
+
+    def is_repair(s):
+        return any(isinstance(x, ast.Call) and isinstance(x.func, ast.Attribute) and x.func.attr == 'repair_field_types' for x in ast.walk(s))
+
+    def helper_ok(g, depth=0):
+        if depth > 3:
+            return False
+        bad = must_pass(g, lambda s: is_repair(s) or calls_ok_helper(g, s, depth))
+        return not [b for b in bad if 'not repair' not in (b[2] or '')]
+
+    def calls_ok_helper(f, s, depth):
+        for x in ast.walk(s):
+            if isinstance(x, ast.Call) and isinstance(x.func, ast.Name):
+                try:
+                    g = p.fn(f.mod.name + '.' + x.func.id)
+                except Exception:
+                    continue
+                if g is not f and any(is_repair(y) for y in ast.walk(g.node)) and helper_ok(g, depth + 1):
+                    return True
+        return False
+    for name in ('verify_df', 'detect_df'):
+        f = p.fn('tdda.constraints.pd.constraints.' + name)
+        n += 1
+        bad = must_pass(f, lambda s, f=f: is_repair(s) or calls_ok_helper(f, s, 0))
+        bad = [b for b in bad if 'not repair' not in (b[2] or '')]
+        if not bad:
+            run.ob(rid, '%s::%s' % (f.rel, f.short), True, '%s repairs field types on every path with repair on' % name, fn=f)
+        for k, node, atoms in bad:
+            run.ob(rid, '%s::%s::exit[%s]' % (f.rel, f.short, (atoms or '')[:60]), False,
+                   '%s can return without repair_field_types although repair was requested (path: %s)' % (name, atoms or 'unconditional'),
+                   fn=f, node=node if hasattr(node, 'lineno') else None)
+    run.floor(rid, n, 2)
